@@ -746,8 +746,9 @@ def trees(draw, types, dom, ran, depth, mode='c04', pairs=None,
     if rule in ('rscal', 'div'):
         node['a'] = sub_full()
         scplx = tinfo(types, fkey_dom).cplx
-        if scplx and not tinfo(types, fkey_ran).cplx and \
-                true_linear(node['a']):
+        if scplx and true_linear(node['a']) and (
+                not tinfo(types, fkey_ran).cplx or
+                real_linear_only(types, node['a'])):
             # operators C^n -> R^n flagged linear are only real-linear; ODL
             # rewrites A*a -> a*A for them, which needs a real scalar
             scplx = False
@@ -1090,6 +1091,15 @@ def true_linear(node):
 
 
 EXTRA_LINEAR = set()
+
+
+def real_linear_only(types, node):
+    """True if the tree contains a leaf that ODL flags linear although it is
+    only real-linear (documented "C = R^2 sense": RealPart / ImagPart on a
+    complex space).  For such expressions ODL's rewriting A*a -> a*A and the
+    homogeneity test are meaningful for real scalars only."""
+    return any(n['op'] == 'leaf' and n['kind'] in ('realpart', 'imagpart')
+               and tinfo(types, n['dom']).cplx for n in tree_nodes(node))
 
 
 # --------------------------------------------------------------------------
